@@ -22,6 +22,34 @@ pub static LOG_OUT: std::sync::atomic::AtomicBool = std::sync::atomic::AtomicBoo
 /// per-request latencies can be bounded coarsely.  Off by default: events are unchanged for everybody else.
 pub static LOG_TIME: std::sync::atomic::AtomicBool = std::sync::atomic::AtomicBool::new(false);
 
+/// C12 (additive): per-backend session parameters, set from the scenario's backend entry `c12_params`:
+/// {"defaults": {GUC: value ..}       session defaults of settable reported GUCs (TimeZone, DateStyle, ..),
+///  "readonly": {name: value ..}      read-only reported parameters (merged over server_version, server_encoding,
+///                                    integer_datetimes, is_superuser), reported at startup,
+///  "by_conn": {"2": {"defaults": .., "readonly": ..}}   overrides for one connection id}.
+/// A backend that has an entry refuses `SET <read-only parameter>` with 55P02 like PostgreSQL.
+pub static C12_PARAMS: std::sync::Mutex<BTreeMap<String, Value>> = std::sync::Mutex::new(BTreeMap::new());
+
+fn c12_params(be: &str, conn: u64) -> Option<(BTreeMap<String, String>, BTreeMap<String, String>)> {
+    let g = C12_PARAMS.lock().ok()?;
+    let cfg = g.get(be)?;
+    let mut d = BTreeMap::new();
+    let mut r = BTreeMap::new();
+    for layer in [Some(cfg), cfg.get("by_conn").and_then(|b| b.get(conn.to_string()))].into_iter().flatten() {
+        if let Some(o) = layer.get("defaults").and_then(|x| x.as_object()) {
+            for (k, v) in o {
+                d.insert(k.clone(), v.as_str().unwrap_or("").to_string());
+            }
+        }
+        if let Some(o) = layer.get("readonly").and_then(|x| x.as_object()) {
+            for (k, v) in o {
+                r.insert(k.clone(), v.as_str().unwrap_or("").to_string());
+            }
+        }
+    }
+    Some((d, r))
+}
+
 pub fn log_event(log: &Log, mut v: Value) {
     let mut g = log.lock();
     if LOG_TIME.load(Ordering::Relaxed) {
@@ -56,10 +84,15 @@ pub struct Backend {
     pub max_open_settled: AtomicU64, // C04: highest session count that persisted for 30 ms
     pub host: String, // address the listener binds (default 127.0.0.1; C07 uses 127.0.0.x aliases so that admin BAN <host> can tell servers apart)
     pub hang_match: Mutex<Option<String>>, // C07: a simple query containing this text is swallowed and never answered
+    pub fault_on: Mutex<Option<(String, String)>>, // C07: (message tags, kind): a session that receives a message with one of these tags
+                                                   // hangs (kind "hang": nothing more is answered), dies ("close": closed without a reply), or answers that
+                                                   // message with half of the bytes and then closes ("mid") / stops ("mid_hang")
     pub reset_epoch: AtomicU64, // C02/C04: bumping it makes every open session close with a TCP RST (SO_LINGER 0) at its next idle poll; the listener stays up
     pub slow_exact: Mutex<Option<(String, u64, u64)>>, // C01/C02: a simple query whose text IS this string is answered after ms, for the next `count` occurrences (the health check `;` carries no directive)
     pub busy: Mutex<BTreeMap<u64, String>>, // C10: session id -> the statement it is executing right now (reported in every `cancel` event)
     pub gates: Mutex<std::collections::HashSet<String>>, // C10: opened gates; a statement with /*mock:gate=NAME*/ is answered only after NAME was opened
+    pub refuse_new: std::sync::atomic::AtomicBool, // C10: while set the listener is gone (connect() is refused by the kernel, the port stays reserved) but ESTABLISHED sessions keep working
+    pub listening: std::sync::atomic::AtomicBool, // C10: whether the accept loop currently has a listening socket
     pub reply_segs: Mutex<Vec<usize>>, // C20: cut EVERY flush of this backend into TCP writes at these offsets (like the segs= directive, but per backend)
     pub reply_segd: AtomicU64,         // C20: pause (ms) between those pieces
 }
@@ -370,6 +403,7 @@ struct Conn {
     stream: TcpStream,
     out: BytesMut,
     c03: C03Script,
+    c07_mid: u8, // C07: the next non-empty flush writes half of its bytes and then closes (1) / hangs (2); directives mid / mid_hang, fault_on kinds
 }
 
 impl Conn {
@@ -512,6 +546,13 @@ impl Conn {
         }
         if d.contains_key("close") {
             return Flow::Close;
+        }
+        // C07 (additive): the reply that contains this statement's result is cut in the middle, then the session closes / hangs
+        if d.contains_key("mid") {
+            self.c07_mid = 1;
+        }
+        if d.contains_key("mid_hang") {
+            self.c07_mid = 2;
         }
         // C03 (additive): segs=a:b:c cuts the next flush into TCP writes at these offsets (segd=ms pause);
         // copy_reply_raw=<hex> replaces the reply to CopyDone/CopyFail; copy_in (with raw=) enters COPY IN mode.
@@ -663,6 +704,12 @@ impl Conn {
                         // C12 (additive): a value starting with "!invalid!" is refused the way PostgreSQL refuses a value
                         // that fails a GUC's check hook
                         Some(v) if v.starts_with("!invalid!") => self.err("22023", "invalid value for parameter"),
+                        // C12 (additive): a backend with c12_params refuses SET of a read-only parameter like PostgreSQL
+                        Some(_) if c12_params(&self.be.name, self.s.id).map(|(_, r)| {
+                            let n = name.to_ascii_lowercase();
+                            r.keys().any(|k| k.to_ascii_lowercase() == n)
+                                || ["server_version", "server_encoding", "integer_datetimes", "is_superuser", "in_hot_standby"].contains(&n.as_str())
+                        }).unwrap_or(false) => self.err("55P02", &format!("parameter \"{}\" cannot be changed", name)),
                         Some(v) => {
                             if v.eq_ignore_ascii_case("default") && !val.trim_start().starts_with('\'') {
                                 self.set_guc(&name, None, local);
@@ -783,6 +830,23 @@ impl Conn {
         let mode = self.be.mode.load(Ordering::SeqCst);
         if mode == MODE_SLOW {
             tokio::time::sleep(std::time::Duration::from_millis(self.be.slow_ms.load(Ordering::SeqCst))).await;
+        }
+        if self.c07_mid != 0 && !self.out.is_empty() {
+            let half = self.out.len() / 2;
+            let _ = self.stream.write_all(&self.out[..half]).await;
+            let _ = self.stream.flush().await;
+            self.out.clear();
+            if self.c07_mid == 2 {
+                let mut buf = [0u8; 4096];
+                loop {
+                    match self.stream.read(&mut buf).await {
+                        Ok(0) | Err(_) => break,
+                        Ok(_) => {}
+                    }
+                }
+            }
+            self.c07_mid = 0;
+            return false;
         }
         if mode == MODE_CLOSE_MID_REPLY && !self.out.is_empty() {
             let half = self.out.len() / 2;
@@ -930,12 +994,26 @@ async fn session(be: Arc<Backend>, mut stream: TcpStream) {
     defaults.insert("TimeZone".to_string(), "Etc/UTC".to_string());
     defaults.insert("standard_conforming_strings".to_string(), "on".to_string());
     defaults.insert("IntervalStyle".to_string(), "postgres".to_string());
+    let mut readonly: Vec<(String, String)> = [("server_version", "14.0 (mock)"), ("server_encoding", "UTF8"), ("integer_datetimes", "on"), ("is_superuser", "off")]
+        .iter().map(|(k, v)| (k.to_string(), v.to_string())).collect();
+    // C12 (additive): heterogeneous servers: this backend's / this connection's own defaults and read-only reports
+    if let Some((d, r)) = c12_params(&be.name, id) {
+        for (k, v) in d {
+            defaults.insert(canon(&k), v);
+        }
+        for (k, v) in r {
+            match readonly.iter_mut().find(|(n, _)| *n == k) {
+                Some(e) => e.1 = v,
+                None => readonly.push((k, v)),
+            }
+        }
+    }
     for (k, v) in defaults.iter() {
         let mut b = cstr(k);
         b.extend(cstr(v));
         put_msg(&mut out, b'S', &b);
     }
-    for (k, v) in [("server_version", "14.0 (mock)"), ("server_encoding", "UTF8"), ("integer_datetimes", "on"), ("is_superuser", "off")] {
+    for (k, v) in readonly.iter() {
         let mut b = cstr(k);
         b.extend(cstr(v));
         put_msg(&mut out, b'S', &b);
@@ -965,7 +1043,7 @@ async fn session(be: Arc<Backend>, mut stream: TcpStream) {
         out_set: Default::default(),
         role_out: false,
     };
-    let mut c = Conn { be: be.clone(), s, stream, out: BytesMut::new(), c03: C03Script::default() };
+    let mut c = Conn { be: be.clone(), s, stream, out: BytesMut::new(), c03: C03Script::default(), c07_mid: 0 };
     log_event(&be.log, json!({"who": be.name, "conn": id, "ev": "ready", "pid": id as i32 + 1000, "key": (id as i32 + 1000) * 7 + 13}));
     c.publish_state();
     {
@@ -1050,6 +1128,32 @@ async fn run_session(c: &mut Conn) -> String {
             }
             continue;
         }
+        // C07 (additive): per-backend fault armed on message tags (step `backend` fault_on)
+        let c07_fault = c.be.fault_on.lock().clone().and_then(|(tags, kind)| if tags.as_bytes().contains(&code) { Some(kind) } else { None });
+        if let Some(kind) = c07_fault {
+            if kind == "hang" || kind == "close" {
+                let mut detail = json!({"raw": hex(&raw), "c07_fault": kind});
+                if code == b'P' {
+                    let mut bb = &body[..];
+                    let name = read_cstr(&mut bb);
+                    detail["name"] = json!(name);
+                    detail["sql"] = json!(read_cstr(&mut bb));
+                }
+                c.log_msg(code, detail);
+                c.publish_state();
+                if kind == "close" {
+                    return "c07 fault: close".into();
+                }
+                let mut buf = [0u8; 4096];
+                loop {
+                    match c.stream.read(&mut buf).await {
+                        Ok(0) | Err(_) => return "peer closed while hung (c07 fault)".into(),
+                        Ok(_) => {}
+                    }
+                }
+            }
+            c.c07_mid = if kind == "mid_hang" { 2 } else { 1 };
+        }
         let flow = match code {
             b'Q' => {
                 let q = read_cstr(&mut b);
@@ -1094,7 +1198,7 @@ async fn run_session(c: &mut Conn) -> String {
                     // C12 (additive): a multi-statement simple Query is one implicit transaction: an "invalid value" error
                     // (22023, only produced by the !invalid! marker) rolls back the SETs that preceded it in the message.
                     if let Some(snap) = c12_snap {
-                        if c.s.txn == b'I' && last_error_code(&c.out).as_deref() == Some("22023") {
+                        if c.s.txn == b'I' && matches!(last_error_code(&c.out).as_deref(), Some("22023") | Some("55P02")) {
                             c.restore_gucs(snap);
                         }
                     }
@@ -1403,10 +1507,13 @@ impl Backend {
             max_open_settled: AtomicU64::new(0),
             host: host.to_string(),
             hang_match: Mutex::new(None),
+            fault_on: Mutex::new(None),
             slow_exact: Mutex::new(None),
             reset_epoch: AtomicU64::new(0),
             busy: Mutex::new(BTreeMap::new()),
             gates: Mutex::new(std::collections::HashSet::new()),
+            refuse_new: std::sync::atomic::AtomicBool::new(false),
+            listening: std::sync::atomic::AtomicBool::new(true),
             reply_segs: Mutex::new(Vec::new()),
             reply_segd: AtomicU64::new(2),
         });
@@ -1415,7 +1522,8 @@ impl Backend {
             let mut listener = Some(listener);
             let mut holder: Option<tokio::net::TcpSocket> = None; // C20: keeps the port while "down_held"
             loop {
-                if be2.mode.load(Ordering::SeqCst) == MODE_DOWN_HELD {
+                be2.listening.store(listener.is_some(), Ordering::SeqCst); // C10
+                if be2.mode.load(Ordering::SeqCst) == MODE_DOWN_HELD || be2.refuse_new.load(Ordering::SeqCst) {
                     if listener.is_some() || holder.is_none() {
                         listener = None; // stop listening => connection refused ...
                         if let Ok(addr) = format!("{}:{}", be2.host, be2.port).parse::<std::net::SocketAddr>() {
